@@ -305,8 +305,10 @@ def labelset(repo, res, cls):
         for e in exprs:
             for n in ast.walk(e):
                 if isinstance(n, ast.Subscript) and isinstance(n.slice, ast.Compare) and len(n.slice.ops) == 1 \
-                        and isinstance(n.slice.comparators[0], ast.Constant) and n.slice.comparators[0].value == 0 \
-                        and isinstance(n.slice.ops[0], (ast.NotEq, ast.Gt)):
+                        and ((isinstance(n.slice.comparators[0], ast.Constant) and n.slice.comparators[0].value == 0
+                              and isinstance(n.slice.ops[0], (ast.NotEq, ast.Gt)))
+                             or (isinstance(n.slice.left, ast.Constant) and n.slice.left.value == 0
+                                 and isinstance(n.slice.ops[0], (ast.NotEq, ast.Lt)))):
                     filt = True
                 if isinstance(n, ast.Call) and unparse(n.func, 0).split('.')[-1] in ('setdiff1d', 'flatnonzero', 'nonzero', 'compress'):
                     filt = True
